@@ -1793,8 +1793,8 @@ Proof.
     destruct opt as [?|o|].
     + destruct neg; discriminate.
     + destruct neg as [?|g|]; apply andb_true_iff in Hwf as [Hwf H3]; try discriminate; apply andb_true_iff in Hwf as [H1 H2]; apply mem_In in H2.
-      * apply list_eqb_eq in H3. cbn [attr_str_values r_avalue]. rewrite H3, negation_is_not, list_eqb_refl.
-        rewrite <- negation_is_not at 1. rewrite (option_not_not o H2). cbn [join app]. rewrite <- !app_assoc. reflexivity.
+      * apply list_eqb_eq in H3. cbn [attr_str_values r_avalue]. rewrite H3, negation_is_not, list_eqb_refl, (option_not_not o H2).
+        cbn [join app]. reflexivity.
       * cbn [attr_str_values r_avalue]. rewrite Hskip, (option_not_not o H2). cbn [join app]. reflexivity.
     + destruct neg; try discriminate. cbn [attr_str_values r_avalue]. rewrite Hskip. cbn [join app]. rewrite app_nil_r. reflexivity.
   - destruct vals as [|[?|p|] [|? ?]]; try discriminate. rewrite attr_str_values_simple; [reflexivity|].
